@@ -9,6 +9,7 @@ element starts.  Streams: valid renderings; single-token corruptions of them; ra
 strings (compared with the model only).  C11 additionally re-uses one Parser for a history of parses and checks the
 lines carried by load-time / validation errors and the line the command-line tool marks."""
 import json
+import unicodedata
 import math
 import os
 import random
@@ -114,6 +115,8 @@ def quote(rnd, s):
             out.append(rnd.choice(["\\t", "\t"]))
         elif ord(ch) < 32:
             out.append("\\x%02x" % ord(ch) if rnd.random() < 0.5 else ch)      # escaped, or raw between the quotes
+        elif ord(ch) > 126 and rnd.random() < 0.12 and unicodedata.name(ch, ""):
+            out.append("\\N{%s}" % unicodedata.name(ch))          # the named form of the character
         elif ord(ch) > 126 and rnd.random() < 0.3:
             out.append("\\u%04x" % ord(ch) if ord(ch) < 0x10000 else "\\U%08x" % ord(ch))
         else:
@@ -430,7 +433,7 @@ def main():
             lines.append(")")
             pad()
             fault = rnd.choice(["unknown-command", "bad-number", "missing-result", "undeclared", "missing-arg", "duplicate", "fuzzy", "bad-path",
-                                "rt-empty", "rt-header", "rt-weights", "rt-dupraw", "nested-list"])
+                                "rt-empty", "rt-header", "rt-weights", "rt-dupraw", "nested-list", "bad-metadata"])
             start = len(lines) + 1
             allowed = None      # run-time faults: the lines an error may carry (None = no line at all, which claims nothing)
             if fault == "unknown-command":
@@ -447,6 +450,10 @@ def main():
                 else:     # the value starts on a later line than its argument name
                     lines += ["B = CvtToFuzzy(", "    InFieldName = A,", "    TrueThreshold =", "", "        abc,", "    FalseThreshold = 0", ")"]
                     want, cls = start + 2, "ParameterNotValid"
+            elif fault == "bad-metadata":
+                # Metadata that is not a set of key: value pairs, below the first line of its command; read through Command.metadata
+                lines += ["B = Copy(", "    InFieldName = A,", "", "    Metadata = [a, b]", ")"]
+                want, cls = start + 3, "ParameterNotValid"
             elif fault == "nested-list":
                 # a list where a number is expected, as an element of a list argument written over several lines: the offending
                 # ARGUMENT starts at its name, wherever the inner bracket is
@@ -509,7 +516,10 @@ def main():
             evaluations += 1
             replay = {"source": src, "fault": fault, "expected_line": want}
             try:
-                Program.from_source(src, libraries=EEMS_CSV_LIBRARIES, working_dir=wd).run()
+                pr_ = Program.from_source(src, libraries=EEMS_CSV_LIBRARIES, working_dir=wd)
+                if fault == "bad-metadata":
+                    pr_.commands["B"].metadata          # the property display tools read; then the run below reports the same fault
+                pr_.run()
                 fails.append({"sig": "C11:error-not-raised", "what": "fault %s not reported" % fault, "replay": replay})
                 continue
             except MPilotError as ex:
